@@ -1,5 +1,10 @@
 use rtcmon::common::Args;
 
+// Counting allocator (DESIGN.md 2.4): per-thread allocated-bytes counter + sharded live-bytes
+// estimate; a few ns per allocation, harmless for engines that do not read it.
+#[global_allocator]
+static GLOBAL: rtcmon::alloc_count::CountingAlloc = rtcmon::alloc_count::CountingAlloc;
+
 fn main() {
     let argv: Vec<String> = std::env::args().skip(1).collect();
     if argv.is_empty() {
@@ -21,6 +26,8 @@ fn main() {
         "C06" => rtcmon::engines::ice_attack::run(&args),
         "C09" => rtcmon::engines::jsep_fsm::run(&args),
         "C08" => rtcmon::engines::sdp_neg::run(&args),
+        "C17" => rtcmon::engines::lifecycle::run(&args),
+        "C07" => rtcmon::engines::totality::run(&args),
         other => {
             eprintln!("unknown property/engine {other}");
             2
